@@ -12,6 +12,10 @@ binding: every emitted lattice point is executed on the real
          a.b) formula, signed distances from polygon edges, cap areas) and TLC
          validates every record against spec/Shape_Trace.tla.  The cap areas
          themselves are cross-checked by TLC against pixel-centre counts.
+         Besides the five centre classes of the design the lattice has the class
+         "origin_int" (ra = 0, dec = 0 written as the integers 0, 0) and every
+         record carries a few query positions written as integers: integer-typed
+         radian input is silently truncated by Region.sky2ang (finding of this check).
 """
 import math
 import os
@@ -500,7 +504,7 @@ def run(ctx):
     pts = lattice(ctx)
     margins = {p["cfg"]["depth"]: p["margin"] for p in pts}
     selftest(ctx, margins)
-    nseeds = 1 if quick else 4
+    nseeds = 1 if quick else 6
     jobs = []
     for p in pts:
         for s in range(nseeds):
